@@ -74,8 +74,9 @@ Definition info_substring (p : profile) (s : str) (start end_ : N) : ires str :=
 
 (** [fn delete_char_range(value, offset, count)]:
     [s = if offset < len { offset } else { len }],
-    [e = if s + count < len { s + count } else { len }], [chars.drain(s..e)];
-    [Vec::drain] panics when [s > e] or [e > len] in every profile *)
+    pinned:   [e = if s + count < len { s + count } else { len }]  (unchecked [s + count]),
+    repaired: [e = s.saturating_add(count).min(len)],
+    then [chars.drain(s..e)]; [Vec::drain] panics when [s > e] or [e > len] in every profile *)
 Definition delete_char_range (v : version) (p : profile) (s : str) (offset count : N) : ires str :=
   let n := len s in
   let a := if offset <? n then offset else n in
@@ -147,7 +148,7 @@ Definition info_split_at (s : str) (offset : N) : str * str :=
 
 (** ** dom/src/lib.rs *)
 
-Definition set_data_of (st : cdstate) (d : str) : cdstate := St d (following st).
+Definition with_data (st : cdstate) (d : str) : cdstate := St d (following st).
 
 (** [fn length] *)
 Definition m_length (st : cdstate) : N := info_len (data st).
@@ -175,7 +176,7 @@ Definition m_substring_data (v : version) (p : profile) (k : kind) (st : cdstate
 Definition m_insert_data (k : kind) (st : cdstate) (offset : N) (arg : str) : mres :=
   if m_length st <? offset then MRaised IndexSizeErr st
   else match insert_char_at k (data st) offset arg with
-       | IOk d => MDone VUnit (set_data_of st d)
+       | IOk d => MDone VUnit (with_data st d)
        | IInvalid => MInvalidArg st
        | IPanic => MPanic
        end.
@@ -193,7 +194,7 @@ Definition m_delete_data (v : version) (p : profile) (st : cdstate) (offset coun
   | Some b =>
       if m_length st <? b then MRaised IndexSizeErr st
       else match delete_char_range v p (data st) offset count with
-           | IOk d => MDone VUnit (set_data_of st d)
+           | IOk d => MDone VUnit (with_data st d)
            | _ => MPanic
            end
   end.
